@@ -493,12 +493,40 @@ def pred_diag_keyerror(s, info):
             'uncovered_threshold' in str(f['observed']) for f in fails)
 
 
+def pred_multistep_alias(s, info):
+    """check_partials(step=[h1, h2, ..]): the J_fd entries of a dense-declared (or directional) partial are one array
+    holding the last step's quotient, and the per-step `magnitude` records are one object holding the maximum over the
+    steps: everything reported for an earlier step is computed from another step's numbers"""
+    md = s.get('md')
+    fails = info.get('fails') or []
+    if not md or len(md['st']) < 2 or not fails or (md['dir'] and s.get('kind') != 'dense'):
+        return False
+    n = len(md['st'])
+    for f in fails:
+        c = f['clause']
+        if not c.startswith('step ') or 'check raised' in c:
+            return False
+        k = int(c.split()[1])
+        if not (k < n or 'magnitude differs' in c):
+            return False
+    return True
+
+
+def pred_directional_sparse(s, info):
+    """directional check of a partial declared with rows/cols, diagonal or a scipy sparse value: the directional
+    quotient is forced into the declared pattern (exception, or J_fd made of analytic leftovers plus false uncovered_nz)"""
+    md = s.get('md')
+    return bool(md and md['dir'] and s.get('kind') != 'dense' and (info.get('fails') or []))
+
+
 # ModeSeq of CheckPartials.tla (RpMode is the 1-based index)
 MODE_SEQ = [{'q': 1, 'st': [2, 4], 'dir': False}, {'q': 1, 'st': [4, 2], 'dir': False}, {'q': 1, 'st': [2], 'dir': False},
             {'q': 0, 'st': [2], 'dir': True}, {'q': 1, 'st': [4, 2], 'dir': True}]
 
 PREDICATES = {'C13-uncovered-nz-incomplete': pred_incomplete,
-              'C13-uncovered-nz-diagonal-keyerror': pred_diag_keyerror}
+              'C13-uncovered-nz-diagonal-keyerror': pred_diag_keyerror,
+              'C13-multistep-shared-report': pred_multistep_alias,
+              'C13-directional-sparse-declared': pred_directional_sparse}
 
 
 def _report(ctx, s, v, fails):
@@ -710,16 +738,26 @@ def run(ctx):
                 'scenarios below 9 cells and a quarter of the larger ones through check_totals (cs and fd; fwd or rev) '
                 'on the chain x -> comp -> G y.  Compared per pair: analytic and approximated matrices, abs/rel error, '
                 'tolerance violation, values at the maximum, magnitudes, Frobenius norm of the reported difference, and '
-                'the uncovered_nz list as a set of (row, col).  non-trivial = distinct scenarios with a flagged '
-                'nonzero or a nonzero error' % (
+                'the uncovered_nz list as a set of (row, col).  Step / directional families (ChooseMode): the base '
+                'scenarios with at most 6 cells (6 cells: every %d-th support), correct or one wrong value, at most one '
+                'removed nonzero, with curvature (y = A x + Q x^2 + b, Q = 4 sgn A) x {steps [1/2, 1/4], [1/4, 1/2], '
+                '[1/2]} and directional checks {affine, step 1/2; curved, steps [1/4, 1/2]}: one check_partials call '
+                '(fd, forward) with the list of steps, every step\'s J_fd / errors / magnitudes / uncovered_nz compared '
+                'with the exact quotient J + Q h of THAT step.  non-trivial = distinct scenarios with a flagged '
+                'nonzero or a nonzero error (every step / directional scenario)' % (
                     '3x3: the supports with SupHash mod 2 = seed mod 2, and every 4th combination of an under-declared '
                     'pattern with wrong values' if quick else
                     '3x3: all; 3x4: the supports with SupHash mod 16 = seed mod 16, every 4th combination of an '
-                    'under-declared pattern with wrong values'))
+                    'under-declared pattern with wrong values', 4 if quick else 1))
     ctx.assumptions = [
-        'affine integer components only: the approximation is exact, so truncation/conditioning of FD is out of scope',
+        'affine integer components, and quadratic ones with forward differences of step 1/2, 1/4 (step families): the '
+        'approximation is exact in floating point, so truncation/conditioning of FD is out of scope',
         'one (of, wrt) pair per component, no units, no src_indices, no duplicate rows/cols entries, no matrix-free '
-        'or implicit components, no directional checks, single fd step per call',
+        'or implicit components; lists of steps and directional checks for check_partials only (not check_totals)',
+        'a directional check reports vectors with one entry per output row (J . 1 and the quotient along 1) whatever '
+        'the declared storage, and flags nothing: one direction cannot be attributed to columns of a pattern',
+        '`abs error` is the difference at the entry with the largest tolerance violation |dJ| - rtol |J_fd| (the '
+        'documented ranking); on the integer scenarios this entry also carries the largest difference (law AbsIsMaxNorm)',
         'a sparse-declared partial reports J_fd on its declared cells only (by design of the checking Jacobian); '
         'nonzeros outside are reported through uncovered_nz, which is what the spec demands to be complete',
         'the harness hands a fresh sparse matrix to the Jacobian in every compute_partials call: a sparse value is kept '
